@@ -421,11 +421,11 @@ def run_gated(rng, out):
 
 
 def shards(tier, seed):
-    specs = [{"kind": "gated", "seed": seed, "n": 300 if tier == "quick" else 4000}]
+    specs = [{"kind": "gated", "seed": seed, "n": 300 if tier == "quick" else 20000}]
     for i in range(NSHARDS):
         specs.append({"kind": "format", "part": i, "parts": NSHARDS, "seed": seed, "tier": tier})
         specs.append({"kind": "timing", "seed": seed, "shard": i,
-                      "programs": (1200 if tier == "quick" else 16000) // NSHARDS,
+                      "programs": (1200 if tier == "quick" else 80000) // NSHARDS,
                       "steps": 25 if tier == "quick" else 50})
     return specs
 
